@@ -94,6 +94,48 @@ example : runSession 100 false ⟨0, 0, Gen.C12.defaultMax, 1⟩ none
     fresh 100 false ⟨0, 0, Gen.C12.defaultMax, 1⟩ ⟨[1], .start, ⟨0, 0, 0, 1⟩, [⟨1, 1, 1, 1⟩], 5, false⟩
     = .ok [1, 4] := by decide +kernel
 
+
+/-! ### in-place edits of `split.children`
+
+  `_children_cache` is keyed on `tuple(self.children)`: the identities of the CURRENT children in
+  their CURRENT order.  Whether `children` was rebound to a new list or the same list object was
+  edited in place (two entries swapped, the list reversed or sorted, an entry replaced,
+  `children[:] = …` of equal length) makes no difference: a call is described by the ids it finds
+  in the list at that moment.  `session_history_independent` quantifies over ALL id lists per
+  call; the two corollaries below spell out the in-place case. -/
+
+/-- an edit that changes the tuple of children — in particular every reordering of pairwise
+    different children and every replacement of an entry — misses the cache: nothing of the old
+    `_all_children` list is used -/
+theorem lookup_of_edit {c : Cache} {call : Call}
+    (h : ∀ key a p, c = some (key, a, p) → key ≠ call.ids) : lookup c call = (call.al, call.pad) := by
+  unfold lookup
+  rcases c with _ | ⟨key, a, p⟩
+  · rfl
+  · simp only
+    rw [if_neg (h key a p rfl)]
+
+/-- **After any sequence of in-place edits** (same length or not, with or without the dimensions
+    changing as well) the split divides for the children that are in the list NOW, in the order
+    they have NOW: the last answer of the session is the answer of a fresh split for the current
+    list.  Proviso as before: `align` / `padding` are not reassigned during the session. -/
+theorem session_inplace_edit (fuel : Nat) (horizontal : Bool) (filler : Dim) (al : Align) (pad : Dim)
+    (before : List Call) (call : Call)
+    (h : ∀ c ∈ before ++ [call], c.al = al ∧ c.pad = pad) :
+    (runSession fuel horizontal filler none (before ++ [call])).getLast?
+      = some (fresh fuel horizontal filler call) := by
+  have hn : CacheOK al pad none := by intro _ _ _ h; cases h
+  rw [session_history_independent fuel horizontal filler al pad _ none hn h]
+  simp
+
+/-- non-vacuity: children 1 and 2 are swapped in place (same two ids, same length, same
+    available width): the sizes follow the new order; then child 1 is replaced by a new child 3 -/
+example : runSession 400 false ⟨0, 0, Gen.C12.defaultMax, 1⟩ none
+    [⟨[1, 2], .justify, ⟨0, 0, 0, 1⟩, [⟨2, 2, 2, 1⟩, ⟨1, 3, Gen.C12.defaultMax, 1⟩], 9, false⟩,
+     ⟨[2, 1], .justify, ⟨0, 0, 0, 1⟩, [⟨1, 3, Gen.C12.defaultMax, 1⟩, ⟨2, 2, 2, 1⟩], 9, false⟩,
+     ⟨[2, 3], .justify, ⟨0, 0, 0, 1⟩, [⟨1, 3, Gen.C12.defaultMax, 1⟩, ⟨4, 4, 4, 1⟩], 9, false⟩]
+    = [.ok [2, 0, 7], .ok [7, 0, 2], .ok [5, 0, 4]] := by decide +kernel
+
 /-! ### sessions with the proved fuel (`runSessionB`, what the driver runs) -/
 
 /-- a single call with the proved fuel never runs out of fuel -/
